@@ -63,7 +63,9 @@ func TestBpfDump(t *testing.T) {
 	raws := make([][]bpf.RawInstruction, len(cfgs))
 	errs := make([]error, len(cfgs))
 	for i, c := range cfgs {
-		if c.Type < 0 {
+		if c.Type < -1 {
+			raws[i], errs[i] = bpf.Assemble(selfTest(c.Type))
+		} else if c.Type < 0 {
 			raws[i] = packets.VerifDropAllFilter()
 		} else {
 			raws[i], errs[i] = packets.VerifClassicBPF(specOf(c))
@@ -148,4 +150,78 @@ func TestBpfCheck(t *testing.T) {
 	}
 	j, _ := json.Marshal(res)
 	os.WriteFile(*flagOut, j, 0o644)
+}
+
+// selfTest: programs that use every opcode class of classic BPF (the repository's own programs use a handful); they are
+// interpreted by Bpf.tla and run on the real VM over the same frames, so that a change of a program to other opcodes is
+// judged by an interpreter that has been checked against the VM.
+func selfTest(t int) []bpf.Instruction {
+	switch t {
+	case -2: // constant X, indexed load, ALU with constants, scratch memory, length
+		return []bpf.Instruction{
+			bpf.LoadConstant{Dst: bpf.RegX, Val: 20},
+			bpf.LoadIndirect{Off: 14, Size: 2},
+			bpf.ALUOpConstant{Op: bpf.ALUOpAdd, Val: 1},
+			bpf.ALUOpConstant{Op: bpf.ALUOpShiftLeft, Val: 19},
+			bpf.ALUOpConstant{Op: bpf.ALUOpShiftRight, Val: 3},
+			bpf.ALUOpConstant{Op: bpf.ALUOpOr, Val: 0x10003},
+			bpf.ALUOpConstant{Op: bpf.ALUOpAnd, Val: 0xfffffff7},
+			bpf.ALUOpConstant{Op: bpf.ALUOpXor, Val: 0x80000005},
+			bpf.StoreScratch{Src: bpf.RegA, N: 3},
+			bpf.LoadExtension{Num: bpf.ExtLen},
+			bpf.TAX{},
+			bpf.LoadScratch{Dst: bpf.RegA, N: 3},
+			bpf.ALUOpX{Op: bpf.ALUOpSub},
+			bpf.JumpIf{Cond: bpf.JumpGreaterThan, Val: 0x80000000, SkipTrue: 1},
+			bpf.RetConstant{Val: 0},
+			bpf.ALUOpConstant{Op: bpf.ALUOpShiftRight, Val: 17},
+			bpf.JumpIf{Cond: bpf.JumpBitsSet, Val: 0x2, SkipFalse: 1},
+			bpf.RetConstant{Val: 0xffff},
+			bpf.RetConstant{Val: 0},
+		}
+	case -3: // X from the header length, ALU with X, jumps on X, negation, X in scratch memory
+		return []bpf.Instruction{
+			bpf.LoadMemShift{Off: 14},
+			bpf.StoreScratch{Src: bpf.RegX, N: 15},
+			bpf.LoadIndirect{Off: 16, Size: 2},
+			bpf.ALUOpX{Op: bpf.ALUOpAdd},
+			bpf.ALUOpX{Op: bpf.ALUOpXor},
+			bpf.ALUOpX{Op: bpf.ALUOpOr},
+			bpf.ALUOpConstant{Op: bpf.ALUOpXor, Val: 0xffffffff}, // (the x/net/bpf VM does not implement NegateA: two's complement by hand)
+			bpf.ALUOpConstant{Op: bpf.ALUOpAdd, Val: 1},
+			bpf.ALUOpConstant{Op: bpf.ALUOpAnd, Val: 0xff},
+			bpf.JumpIfX{Cond: bpf.JumpGreaterThan, SkipTrue: 3},
+			bpf.JumpIfX{Cond: bpf.JumpEqual, SkipTrue: 1},
+			bpf.JumpIfX{Cond: bpf.JumpBitsSet, SkipTrue: 1},
+			bpf.RetConstant{Val: 0},
+			bpf.LoadScratch{Dst: bpf.RegX, N: 15},
+			bpf.TXA{},
+			bpf.ALUOpX{Op: bpf.ALUOpShiftLeft},
+			bpf.ALUOpConstant{Op: bpf.ALUOpShiftRight, Val: 16},
+			bpf.RetA{},
+		}
+	default: // word loads, absolute and indexed, comparisons of full 32-bit values, jump always, X from the length
+		return []bpf.Instruction{
+			bpf.LoadExtension{Num: bpf.ExtLen},
+			bpf.JumpIf{Cond: bpf.JumpGreaterOrEqual, Val: 38, SkipTrue: 1},
+			bpf.RetConstant{Val: 0},
+			bpf.LoadAbsolute{Off: 26, Size: 4},
+			bpf.TAX{},
+			bpf.LoadAbsolute{Off: 30, Size: 4},
+			bpf.JumpIfX{Cond: bpf.JumpGreaterOrEqual, SkipTrue: 1},
+			bpf.Jump{Skip: 2},
+			bpf.ALUOpX{Op: bpf.ALUOpSub},
+			bpf.JumpIf{Cond: bpf.JumpLessThan, Val: 0x01000000, SkipTrue: 1},
+			bpf.RetConstant{Val: 1},
+			bpf.LoadConstant{Dst: bpf.RegA, Val: 0xdeadbeef},
+			bpf.ALUOpConstant{Op: bpf.ALUOpAdd, Val: 0x21524111},
+			bpf.JumpIf{Cond: bpf.JumpEqual, Val: 0, SkipTrue: 1},
+			bpf.RetConstant{Val: 0},
+			bpf.LoadConstant{Dst: bpf.RegX, Val: 4},
+			bpf.LoadIndirect{Off: 30, Size: 4},
+			bpf.JumpIf{Cond: bpf.JumpBitsNotSet, Val: 0x00800000, SkipTrue: 1},
+			bpf.RetConstant{Val: 7},
+			bpf.RetConstant{Val: 0},
+		}
+	}
 }
